@@ -92,6 +92,14 @@
 /* Next instruction variations */
 #define maybe_collect() do {\
     if (janet_vm.next_collection >= janet_vm.gc_interval) janet_collect(); } while (0)
+#ifdef JANET_VERIF
+/* Verification call-out: lets a harness force a collection at any safepoint (default NULL: no effect). */
+JANET_API extern int (*janet_verif_gc_safepoint)(void);
+#undef maybe_collect
+#define maybe_collect() do {\
+    if ((janet_verif_gc_safepoint && janet_verif_gc_safepoint()) || \
+            janet_vm.next_collection >= janet_vm.gc_interval) janet_collect(); } while (0)
+#endif
 #define vm_checkgc_next() maybe_collect(); vm_next()
 #define vm_pcnext() pc++; vm_next()
 #define vm_checkgc_pcnext() maybe_collect(); vm_pcnext()
